@@ -332,6 +332,15 @@ pub fn explore_indexed<F>(ctx: &Ctx, ev: &mut Evidence, name: &'static str, rule
 where
     F: Fn(u64) -> (CheckResult, Value) + Sync,
 {
+    explore_indexed_net(ctx, ev, name, rule, n_items, None, check_idx)
+}
+
+/// `explore_indexed` with the worker processes configured for another network
+pub fn explore_indexed_net<F>(ctx: &Ctx, ev: &mut Evidence, name: &'static str, rule: &str, n_items: u64, network: Option<&str>, check_idx: F) -> Vec<Found>
+where
+    F: Fn(u64) -> (CheckResult, Value) + Sync,
+{
+    CHILD_NETWORK.with(|c| *c.borrow_mut() = network.map(String::from));
     if let Some((part, k, n, outfile, stopfile)) = worker_env() {
         if part == name {
             let known: Vec<String> = load_known_findings(&ctx.id).into_iter().map(|k| k.sig).collect();
